@@ -1,5 +1,6 @@
 //! shared pieces of the correspondence harness: hex I/O, the line-protocol main loop,
 //! canonical printers.  Each binary under src/bin/ serves one family of observations.
+pub mod depth;
 pub mod dt;
 pub mod tree;
 pub mod util;
